@@ -366,6 +366,17 @@ func runC18(run *core.Run) {
 		core.Parallel(len(cs), func(i int) { checkValidators(run, cs[i]) })
 		run.Count("single_code_point_slot_strings", int64(len(cs)))
 	}
+	// words that mean something elsewhere (DSL keywords, reserved names of other validators, literals of other
+	// languages): for the tuple-field rules they are ordinary names
+	{
+		var cs []string
+		for _, w := range []string{"self", "this", "type", "relation", "relations", "define", "model", "schema", "module", "extend", "condition", "with", "from", "and", "or", "but", "not",
+			"true", "false", "null", "nil", "undefined", "NaN", "user", "group", "any", "list", "map", "in", "public", "wildcard", "object", "id", "__proto__", "constructor", "toString"} {
+			cs = append(cs, w, w+":x", "t:"+w, "t:i#"+w, w+":*", w+":i#"+w, strings.ToUpper(w), strings.ToUpper(w)+":x")
+		}
+		core.Parallel(len(cs), func(i int) { checkValidators(run, cs[i]) })
+		run.Count("reserved_looking_word_strings", int64(len(cs)))
+	}
 	// boundaries
 	var bs []string
 	for _, ch := range []string{"a", "é", "_", "日", "😀"} { // 1, 2, 3 and 4 bytes per code point
